@@ -79,6 +79,39 @@ theorem undecorated_subclass_keeps_base (c : ClassDef) (bases : Cls) (hc : c.dec
   intro f hfm
   rw [hget f hfm]
 
+/-- **a decorated subclass with annotated overrides yields what it declares** (the shape of the
+repair): for any bases, any `@dataclass` subclass whose annotated names are pairwise distinct,
+every annotated assignment of its body is the value the instance reports, by attribute and
+through `as_dict()`. -/
+theorem decorated_subclass_declares (c : ClassDef) (bases : Cls) (hc : c.decorated = true)
+    (hnd : (c.annotated.map (·.name)).Nodup) (hbase : ((fieldsOf bases).map (·.name)).Nodup)
+    (i : Instance) (h : instantiate (c :: bases) [] = .ok i) :
+    ∀ f ∈ c.annotated, getattr i f.name = some f.default ∧ (asDict i).lookup f.name = some (some f.default) := by
+  intro f hf
+  have hfields : fieldsOf (c :: bases) = c.annotated.foldl setField (fieldsOf bases) := by simp [fieldsOf, hc]
+  have hnd' : ((fieldsOf (c :: bases)).map (·.name)).Nodup := by
+    rw [hfields]; exact foldl_setField_nodup _ _ hbase
+  have hmem : f ∈ fieldsOf (c :: bases) := by
+    rw [hfields]; exact mem_foldl_setField _ _ hnd f hf
+  have hget := getattr_field (c :: bases) [] i h hnd' f hmem
+  simp only [lookup_nil, Option.getD_none] at hget
+  refine ⟨hget, ?_⟩
+  rw [asDict_eq (c :: bases) [] i h hnd']
+  have := lookup_map_fields (fieldsOf (c :: bases)) (fun g => g.default) hnd' f hmem
+  -- same lookup with `some` wrapped values
+  have h2 : lookup f.name (map (fun g => (g.name, some ((lookup g.name ([] : List (String × PyVal))).getD g.default))) (fieldsOf (c :: bases)))
+      = (lookup f.name (map (fun g => (g.name, g.default)) (fieldsOf (c :: bases)))).map some := by
+    generalize fieldsOf (c :: bases) = l
+    induction l with
+    | nil => rfl
+    | cons a rest ih =>
+      simp only [lookup_nil, Option.getD_none] at ih ⊢
+      simp only [map_cons, List.lookup]
+      split
+      · simp
+      · exact ih
+  rw [h2, this]; rfl
+
 /-! ## configuration files -/
 
 /-- **parsed_invariants**: whenever `parse_config` returns, the phase and fraction lists have
